@@ -136,7 +136,10 @@ def main():
     # ---- an identifier metavariable where the identifier may be absent: the label of break / continue
     LABELS = "package p\n\nfunc h() {\nouter:\n\tfor {\n\t\tfor {\n\t\t\tbreak outer\n\t\t}\n\t\tbreak\n\t}\nagain:\n\tfor {\n\t\tcontinue again\n\t}\n\tfor {\n\t\tcontinue\n\t}\n}\n"
     for ptxt in ("@@\nvar L identifier\n@@\n-break L\n+continue L\n", "@@\nvar L identifier\n@@\n-continue L\n+goto L\n",
-                 "@@\nvar L identifier\n@@\n-break L\n+return\n", "@@\n@@\n-break\n+return\n"):
+                 "@@\nvar L identifier\n@@\n-break L\n+return\n", "@@\n@@\n-break\n+return\n",
+                 # ... and an EXPRESSION metavariable there: the absent label is no expression either
+                 "@@\nvar L expression\n@@\n-continue L\n+break L\n", "@@\nvar L expression\n@@\n-break L\n+continue L\n",
+                 "@@\nvar L expression\n@@\n-goto L\n+return\n"):
         pairs.append(("p.patch", ptxt.encode(), "a.go", LABELS.encode())); names.append("absent-ident"); metas.append({"family": "absent-identifier", "must_parse": True})
     # ---- deep code: repeated metavariables whose fillers differ only far down (20-40 levels), deep literal patterns
     def nest(d, leaf, w="w"):
